@@ -239,9 +239,30 @@ func runC14(c *an.Ctx) {
 		// element PublicFiles[i] with i the ascending range index
 		if nt.K == an.KLoad && nt.A[0].K == an.KIA && strings.Contains(nt.A[0].A[0].Key(), "PublicFiles") {
 			idx := nt.A[0].A[1]
+			// range form: index is (range phi starting at -1) + 1; index-loop form: a phi with incoming values 0 and phi+1
 			if idx.K == an.KBin && idx.S == "+" && isConstTerm(idx.A[0], "1") && idx.A[1].K == an.KPhi {
-				okLoop = true
+				if ph, ok := idx.A[1].Val.(*ssa.Phi); ok {
+					for _, e := range ph.Edges {
+						if isConstTerm(hfi.Term(e), "-1") {
+							okLoop = true
+						}
+					}
+				}
 				rngIdxPhi = true
+			}
+			if idx.K == an.KPhi && fromZeroStepOne(hfi, idx) {
+				okLoop = true
+			}
+			// every file of the list is added: no path through the loop skips the adder, and the loop is left early only by an error reply
+			if l := innermostLoopOf(handler, addFileCall.Block()); l != nil && okLoop {
+				okExit := true
+				for _, e := range l.earlyExits() {
+					// leaving after a failed add (the handler answers 500 and returns) is the only early exit
+					if !addFileCall.Block().Dominates(e[0]) {
+						okExit = false
+					}
+				}
+				okLoop = l.everyIteration(addFileCall.Block()) && okExit
 			}
 		}
 	}
@@ -290,13 +311,63 @@ func runC14(c *an.Ctx) {
 		}
 	}
 	okLimit := false
+	allowFi := hfi
 	if allow != nil && newArchive != nil {
 		okLimit = hfi.FactsAt(newArchive).Has(hfi.Term(allow).Key())
+	}
+	if allow == nil && newArchive != nil {
+		// the admission guards may live in a helper that answers whether to go on: the archive is created only
+		// under helper(...) == true, and every way the helper can answer true has passed Allow() == true
+		for _, b := range handler.Blocks {
+			for _, in := range b.Instrs {
+				gc, ok := in.(*ssa.Call)
+				if !ok {
+					continue
+				}
+				g := gc.Call.StaticCallee()
+				if g == nil || !an.IsRepoFunc(g) || g.Signature.Results().Len() != 1 || !hfi.FactsAt(newArchive).Has(hfi.Term(gc).Key()) {
+					continue
+				}
+				gfi := p.Info(g)
+				var ga *ssa.Call
+				for _, gb := range g.Blocks {
+					for _, gin := range gb.Instrs {
+						if call, ok := gin.(*ssa.Call); ok && strings.HasSuffix(an.CalleeName(&call.Call), "RateLimiter).Allow") {
+							ga = call
+						}
+					}
+				}
+				if ga == nil {
+					continue
+				}
+				all, nRet := true, 0
+				for _, gb := range g.Blocks {
+					if len(gb.Instrs) == 0 || gb == g.Recover {
+						continue
+					}
+					ret, ok := gb.Instrs[len(gb.Instrs)-1].(*ssa.Return)
+					if !ok || len(ret.Results) != 1 {
+						continue
+					}
+					if isConstTerm(gfi.Term(ret.Results[0]), "false") {
+						continue
+					}
+					nRet++
+					if !gfi.FactsAt(ret).Has(gfi.Term(ga).Key()) {
+						all = false
+					}
+				}
+				if all && nRet > 0 {
+					allow, allowFi, okLimit = ga, gfi, true
+					c.Scope(g)
+				}
+			}
+		}
 	}
 	c.Check(okLimit, "LIMIT", handler, handler.Pos(), an.KeyOf(handler, "limiter-dominates"), "an archive is created only after the rate limiter admitted the request", "Allow() == true dominates the archive creation")
 	// limiter field and constants
 	if allow != nil {
-		rt := hfi.Term(allow.Call.Args[0])
+		rt := allowFi.Term(allow.Call.Args[0])
 		f, _, ok := mapFieldOfTerm(rt)
 		c.Check(ok && f == "ApiArchiveRateLimiter", "LIMIT", handler, allow.Pos(), an.KeyOf(handler, "limiter-field"), "the limiter consulted is the server's archive limiter", short(rt.Key()))
 	}
